@@ -19,13 +19,18 @@ CONSTANTS
   MaxCalls,      \* calls per behaviour
   FallbackAsIs,  \* TRUE: WithCustomFallbackPartitioner as on the pinned tree (hp.random = hp)
   EmptyKeyIsKey, \* TRUE (the code): MessageRequiresConsistency is Key != nil; FALSE: a variant that also wants bytes in the key
+  CursorInits,   \* round-robin: cursor values a behaviour may start from. 0 = fresh instance; other values stand for
+                 \* the state after that many earlier calls (near MaxInt: after ~2^31 messages) or after calls with a
+                 \* larger partition count (n-1, n, n+1 of the count used now)
+  ConstN,        \* TRUE: one partition count for the whole behaviour
+  RRModulo,      \* FALSE (the code): wrap by reset; TRUE: a variant "ret = cursor % n; cursor++" whose int32 cursor overflows
   Randomized,    \* TRUE (simulation only): every step draws ONE call at random instead of branching over all
   EmitCases
 
 ASSUME Ns \subseteq 1..16
 
-VARIABLES cfg, cursor, hbuf, dead, hist
-vars == <<cfg, cursor, hbuf, dead, hist>>
+VARIABLES cfg, cursor, cursor0, hbuf, dead, hist
+vars == <<cfg, cursor, cursor0, hbuf, dead, hist>>
 
 Flags(c, a, hf, fb) == [ctor |-> c, abs |-> a, hashfn |-> hf, fb |-> fb]
 Configs ==
@@ -62,7 +67,10 @@ Exact(v) == [k |-> "exact", v |-> v]
 InRangeOnly == [k |-> "range", v |-> 0]      \* any index in 0..n-1 (random choice)
 Crash == [k |-> "crash", v |-> 0]
 
-RRRet(n) == IF cursor >= n THEN 0 ELSE cursor
+\* if p.partition >= numPartitions { p.partition = 0 }; ret := p.partition; p.partition++
+RRRet(n) == IF RRModulo THEN TruncRem(cursor, n) ELSE IF cursor >= n THEN 0 ELSE cursor
+RRNext(n) == IF RRModulo THEN (IF cursor = MaxInt THEN MinInt ELSE cursor + 1)      \* int32 increment wraps
+             ELSE RRRet(n) + 1
 HashRes(h, n) == IF cfg.abs THEN Ref(h, n) ELSE Legacy(h, n)
 Res(m, n) ==
   CASE cfg.ctor = "manual"     -> Exact(m.part)
@@ -82,25 +90,26 @@ Req(m) ==
 
 Init ==
   /\ cfg \in Configs
-  /\ cursor = 0
+  /\ cursor \in (IF cfg.ctor = "roundrobin" THEN CursorInits ELSE {0})
+  /\ cursor0 = cursor
   /\ hbuf = <<>>
   /\ dead = FALSE
   /\ hist = <<>>
 
 Call(m, n) ==
   /\ hist' = Append(hist, [msg |-> m, n |-> n, exp |-> Res(m, n), req |-> Req(m)])
-  /\ cursor' = IF cfg.ctor = "roundrobin" THEN RRRet(n) + 1 ELSE cursor
+  /\ cursor' = IF cfg.ctor = "roundrobin" THEN RRNext(n) ELSE cursor
   \* p.hasher.Reset(); p.hasher.Write(bytes): the hasher holds exactly this key afterwards
   /\ hbuf' = IF IsHash(cfg) /\ m.key.k # "nil" THEN <<m.key.h>> ELSE hbuf
   /\ dead' = (Res(m, n) = Crash)
-  /\ UNCHANGED cfg
+  /\ UNCHANGED <<cfg, cursor0>>
 
 Next ==
   /\ Len(hist) < MaxCalls
   /\ ~dead
   /\ IF Randomized
      THEN \E n \in {RandomElement(Ns)} : \E m \in {RandomElement(Msgs(cfg, n))} : Call(m, n)
-     ELSE \E n \in Ns : \E m \in Msgs(cfg, n) : Call(m, n)
+     ELSE \E n \in (IF ConstN /\ hist # <<>> THEN {hist[1].n} ELSE Ns) : \E m \in Msgs(cfg, n) : Call(m, n)
 
 Spec == Init /\ [][Next]_vars
 
@@ -136,12 +145,12 @@ RoundRobinCycles ==
        (i >= k /\ \A j \in (i - k + 1) .. i : hist[j].n = k)
           => {hist[j].exp.v : j \in (i - k + 1) .. i} = 0 .. (k - 1)
 HasherHoldsOneKey == Len(hbuf) <= 1
-TypeOK == cursor \in 0 .. 17 /\ dead \in BOOLEAN
+TypeOK == (cursor \in 0 .. 17 \/ cursor = cursor0) /\ dead \in BOOLEAN
 
 (* ---------- role 2: emit every maximal behaviour as one JSON case ---------- *)
 KeyJson(k) == [k |-> k.k, h |-> k.h, name |-> k.name]
 CallJson(e) == [key |-> KeyJson(e.msg.key), part |-> e.msg.part, n |-> e.n, xk |-> e.exp.k, xv |-> e.exp.v, xreq |-> e.req]
 Emit ==
   (EmitCases /\ Len(hist) = MaxCalls) =>
-     PrintT(<<"CASE", ToJson([fam |-> "part", cfg |-> cfg, calls |-> [i \in 1 .. Len(hist) |-> CallJson(hist[i])]])>>)
+     PrintT(<<"CASE", ToJson([fam |-> "part", cfg |-> cfg, cursor0 |-> cursor0, calls |-> [i \in 1 .. Len(hist) |-> CallJson(hist[i])]])>>)
 =============================================================================
